@@ -440,6 +440,11 @@ func (p *Parser) parseBuffer(buf []byte, last bool) error {
 				p.mode = dotMap
 				continue
 			}
+			if len(buf) <= off+1 || digitMap[buf[off+1]] != numDigit {
+				// At least one digit must follow the decimal point.
+				p.mode = dotMap
+				continue
+			}
 			for i, b = range buf[off+1:] {
 				if digitMap[b] != numDigit {
 					break
